@@ -163,6 +163,8 @@ def standard_flow(C, tier, replay=None):
         "trace_validation_states": v["states"],
         "checker_cmd": "tlc %s.tla -config %s (TRACE_FILE=<recorded ndjson>)" % (tmod, tcfg),
     }
+    if C.get("extra_coverage"):
+        cov.update(C["extra_coverage"])
     vlib.write_evidence(prop, tier, C.get("level", "model_checking"), cov, C.get("assumptions", []),
                         time.time() - t0, len(violations))
     if violations:
